@@ -190,6 +190,19 @@ def main(rec):
                 for n, ln, txt in LO.fortran_overlong(text):
                     rec.violation("fortran-line>132", "%s:%d has %d columns: %s" % (rel, n, ln, txt), sp)
         rec.count("fortran_files_scanned", nf)
+        # layout directives (tab / form feed / carriage return) steer the writer and never reach a generated file; upstream's
+        # own splicer files (user text, copied verbatim) are the only legitimate source of such a character
+        user_ctl = sp.get("what") == "corpus" or bool(sp.get("links"))
+        for rel, text in r["outputs"].items():
+            if rel.endswith((".json", ".log", ".yaml", ".txt")) or user_ctl:
+                continue
+            rec.count("files_scanned_for_directive_characters")
+            for n_, ln_ in enumerate(text.split("\n"), 1):
+                if "\t" in ln_ or "\f" in ln_ or "\r" in ln_:
+                    ch = "tab" if "\t" in ln_ else ("form-feed" if "\f" in ln_ else "carriage-return")
+                    rec.violation("layout-directive-character-in-output:%s:%s" % (ch, "fortran" if rel.endswith((".f", ".f90")) else "c-family"),
+                                  "%s:%d contains a raw %s: %r" % (rel, n_, ch, ln_[:200]), sp)
+                    break
         if sp.get("linelen") is not None:
             # the configured length is the length every emitter writes with
             for kind, lens_ in (e.get("linelens") or {}).items():
